@@ -4,6 +4,7 @@ From Coq Require Import NArith List Bool.
 From Mpc Require Import Base.Label Base.Codec Circuit.Circuit Circuit.Garble
      Proto.Session Proto.SessionProof Proto.Conn Proto.ConnProof Proto.SessionRx Proto.SessionRxProof.
 Import ListNotations.
+From Mpc Require Gen.State Base.StateExpected Base.StateCheck Base.StatePkgs.
 
 (* Whatever label list reaches the garbler (arbitrary corruption of either
    direction: key, tables, input labels, OT traffic and returned labels all
@@ -98,3 +99,16 @@ Theorem C16_bytes_query :
     of_be (firstn 4 bytes) = N.of_nat (n0 c) /\ of_be (firstn 4 (skipn 4 bytes)) = N.of_nat (n1 c).
 Proof. exact garbler_rx_query_sound. Qed.
 Print Assumptions C16_bytes_query.
+
+(* STATE INVENTORY (finite obligation on the model regenerated from the source, checked by
+   computation).  The struct fields and package-level variables of the Go packages this
+   property is anchored in — circuit, compiler/ssa — as emitted from /repo's current
+   source by harness/gen_state.go (Gen/State.v) are exactly those the models above were written
+   against (Base/StateExpected.v).  A new field or variable (a cache, a memo, a pool, a counter,
+   a changed field type) is state the models do not have: this obligation then breaks and the
+   property is no longer shown to hold until the change has been reviewed against the model. *)
+Theorem C16_state_inventory :
+  Mpc.Base.StateCheck.state_unchanged Mpc.Gen.State.state_inventory Mpc.Base.StateExpected.expected_state
+    Mpc.Base.StatePkgs.pkgs_C16 = true.
+Proof. vm_compute. reflexivity. Qed.
+Print Assumptions C16_state_inventory.
